@@ -193,7 +193,7 @@ func c20Build(tier string) []c20Case {
 	for t, src := range c20All {
 		rw := &recWriter{}
 		if err := eng.ParseAndFRender(rw, []byte(src), c20Bind()); err != nil {
-			panic("harness: fault-free render fails: " + src + ": " + err.Error())
+			panic(explore.BaselineFailure{Msg: "harness: fault-free render fails: " + src + ": " + err.Error()})
 		}
 		c20.clean[t] = rw.buf.String()
 		for k, L := range rw.sizes {
@@ -252,7 +252,7 @@ func c20Families(tier string) []explore.Family {
 			}
 			tpl, perr := c20.eng.ParseString(src)
 			if perr != nil {
-				panic("harness: " + perr.Error())
+				panic(explore.BaselineFailure{Msg: "harness: " + perr.Error()})
 			}
 			err = tpl.FRender(fw, c20Bind())
 		})
